@@ -522,7 +522,12 @@ func buildScenario(r *vs.Rand, cfg dcfg) *scenario {
 		}
 		for i := 0; i < 3; i++ {
 			name := fmt.Sprintf("t1-att-%d", i)
-			switch r.Intn(7) {
+			switch r.Intn(8) {
+			case 7: // carries the marker and names the target as a plain owner, but is controlled by someone else
+				o := mk(name, cfg.Name, owner(false), "v0")
+				refs := o["metadata"].(vs.M)["ownerReferences"].([]interface{})
+				o["metadata"].(vs.M)["ownerReferences"] = append(refs, vs.M{"apiVersion": "apps/v1", "kind": "Other", "name": "boss", "uid": "uid-boss", "controller": true})
+				w.sim.Put(a.group(), a.Resource, o)
 			case 0, 1:
 			case 2: // ours, up to date
 				o := mk(name, cfg.Name, owner(true), str(spec, "image"))
